@@ -16,7 +16,7 @@ MANIFEST_INFO = {
     "engine": "B",
     "design_ref": "DESIGN.md section 5, C10",
     "technique": "explicit-state BFS over status-event histories (bracketed by startTestRun/stopTestRun, second runs included) on real StreamToDict / StreamSummary / StreamToExtendedDecorator objects, per-(id, route) record-table reference model compared after every event",
-    "level_text": "Every sequence of up to 4-5 (quick) / 5-7 (thorough) events from a 38-event alphabet (2 test ids + id-less, 2 route codes, all 8 statuses incl. repeated finals and events after a final, tag replacement, 2 file names with empty/non-empty chunks and mime types, present/absent timestamps), with run start/stop in any position, is fed to fresh real consumers; each report (on_test dict, StreamSummary attributes, calls on the wrapped extended result) is compared with the record-table model at every step.",
+    "level_text": "Every sequence of up to 4-5 (quick) / 5-7 (thorough) events from a 38-event alphabet (2 test ids + id-less, 2 route codes, all 8 statuses incl. repeated finals and events after a final, tag replacement, 2 file names with empty/non-empty chunks and mime types, present/absent timestamps), with run start/stop in any position, is fed to fresh real consumers; each report (on_test dict, StreamSummary attributes, calls on the wrapped extended result) is compared with the record-table model at every step. Fixed longer histories add a text attachment whose chunks split one character and 'exists' finals that carry tags and a file chunk themselves.",
     "level_note": "Canonical-state merging on a generic structural snapshot; 'fail' may land in errors or failures (exactly one); a final 'unknown' status is only required to be counted; 'exists' events are not fed to StreamToExtendedDecorator (replay optional per the statement); files consisting only of empty chunks may or may not be reported.",
 }
 
